@@ -32,15 +32,27 @@ Section AllParameters.
 
   (* At most one frame is read for the exchange, at most one auth reply is written, at most one
      verdict is taken; an accepted connection's history is
-     (exchange events) ++ [OK auth reply; later accept hooks; accept] ++ (no exchange event). *)
+     (accept-phase events only, among them exactly one auth reply, and it is OK) ++ [accept] ++
+     (no accept-phase event ever again: an AUTH_CALL after acceptance is not an exchange). *)
   Theorem C16_exchange_exactly_once : forall ck ins,
     let t := trace (run ck ins) in
     count is_recv t <= 1 /\ count is_auth_reply t <= 1 /\ count is_verdict t <= 1 /\
     (In EvAccept t ->
-       exists pre post, t = pre ++ [EvAuthReply 0; EvNextAccept; EvAccept] ++ post /\
+       exists pre post, t = pre ++ EvAccept :: post /\
          Forall (fun e => is_app e = false) pre /\
+         filter is_auth_reply pre = [EvAuthReply 0] /\
          Forall (fun e => is_exchange e = false) post).
   Proof. exact (exchange_once status_code info_dec route_call route_push limit). Qed.
+
+  (* The whole PostAccept chain: a plugin registered before or behind the checker that returns a
+     non-OK status or panics, or a checker function that panics (before reading, or in its verify
+     code after reading), anywhere - the connection is never accepted, never listed, and nothing
+     runs on it, whatever the client sends and whatever the checker's verdict would have been. *)
+  Theorem C16_failing_hook_anywhere_rejects : forall ck ins,
+    chain_fails ck = true ->
+    accepted (run ck ins) = false /\ indexed (run ck ins) = false /\
+    Forall (fun e => is_app e = false) (trace (run ck ins)).
+  Proof. exact (failing_chain_never_accepts status_code info_dec route_call route_push limit). Qed.
 
   Theorem C16_rejected_closed_and_unindexed : forall ck ins,
     In EvReject (trace (run ck ins)) ->
@@ -62,12 +74,15 @@ Section AllParameters.
 
   (* A complete first frame [f] followed by ANY bytes [rest]: the frames of [rest] are handled
      (handler invocations and replies, in order, each exactly once, up to the first frame the
-     loop cannot read or does not allow) if and only if the verdict on [f] is OK; otherwise
+     loop cannot read or does not allow) if and only if the verdict on [f] is OK and no plugin
+     behind the checker vetoes; otherwise
      nothing of [rest] is handled. *)
   Theorem C16_pipelined_frames_processed_iff_accepted : forall ck s f rest,
-    ck_recvs ck = 1%nat -> parse limit s = PFrame f rest ->
+    ck_recvs ck = 1%nat -> ck_before ck = None -> ck_panic ck = 0%nat ->
+    parse limit s = PFrame f rest ->
     let fin := run ck [Bytes s; Eof] in
-    let ok := Z.eqb (verdict_code ck (Some (recv_of_frame status_code info_dec f))) 0 in
+    let ok := Z.eqb (verdict_code ck (Some (recv_of_frame status_code info_dec f))) 0
+              && negb (hook_fails (ck_after ck)) in
     accepted fin = ok /\
     filter hr (trace fin) =
       if ok then flat_map (fun g => filter hr (frame_events route_call route_push false g))
@@ -79,6 +94,7 @@ End AllParameters.
 Print Assumptions C16_no_hook_or_handler_before_accept.
 Print Assumptions C16_not_accepted_nothing_runs.
 Print Assumptions C16_exchange_exactly_once.
+Print Assumptions C16_failing_hook_anywhere_rejects.
 Print Assumptions C16_rejected_closed_and_unindexed.
 Print Assumptions C16_listed_only_accepted_and_open.
 Print Assumptions C16_finished_after_eof.
@@ -104,7 +120,7 @@ Definition ex_call : bytes :=
   hex "0000002d0002323001092f6170702f6563686f0006636f64653d30000073627a726a7861776e77656b7262656d".
 Definition ex_run (token : bytes) (ins : list input) : st :=
   Auth.run status_code_simple info_dec_simple route_call_h route_push_h 65536
-           (mkChecker 1 false (fun i => bytes_eqb i token)) ins.
+           (mkChecker 1 false (fun i => bytes_eqb i token) 0 None None) ins.
 
 (* right token, a CALL pipelined in the same write: accepted, the CALL is handled once *)
 Example C16_example_accepted :
@@ -131,3 +147,14 @@ Example C16_example_blocked :
   let s := ex_run (str "r") [Bytes (firstn 9 ex_auth)] in
   ph s = Preparing /\ trace s = [] /\ indexed s = false.
 Proof. vm_compute. auto. Qed.
+
+(* right token, but the checker's verify code panics (or a plugin behind the checker panics after
+   the OK reply went out): rejected, closed, the pipelined CALL is not handled *)
+Example C16_example_panicking_checker :
+  let run' ck := Auth.run status_code_simple info_dec_simple route_call_h route_push_h 65536 ck
+                          [Bytes (ex_auth ++ ex_call); Eof] in
+  let s1 := run' (mkChecker 1 false (fun i => bytes_eqb i (str "r")) 2 None None) in
+  let s2 := run' (mkChecker 1 false (fun i => bytes_eqb i (str "r")) 0 None (Some HPanic)) in
+  (In EvReject (trace s1) /\ filter is_app (trace s1) = [] /\ filter is_auth_reply (trace s1) = [] /\ ph s1 = Closed) /\
+  (In EvReject (trace s2) /\ filter is_app (trace s2) = [] /\ filter is_auth_reply (trace s2) = [EvAuthReply 0] /\ ph s2 = Closed).
+Proof. vm_compute. auto 12. Qed.
